@@ -263,6 +263,8 @@ def _index(rng, shape):
     kinds = ['int', 'slice', 'tuple', 'ellipsis', 'mask', 'fancy', 'neg']
     k = kinds[int(rng.integers(0, len(kinds)))]
     n = shape[0]
+    if 0 in shape:
+        return slice(None)
     if k == 'int':
         return int(rng.integers(0, n))
     if k == 'neg':
@@ -312,6 +314,8 @@ def g_unary(G, key, fn):
             return None
         ax = _axis(rng, a.ndim, none=False)
         n = a.shape[ax]
+        if n == 0:
+            return None
         idx = int(rng.integers(0, n)) if rng.random() < .4 else [int(i) for i in rng.integers(0, n, size=2)]
         return Call(key, fn, [a, idx], dict(axis=ax))
     if name in ('sum', 'mean', 'min', 'max', 'amin', 'amax', 'ptp'):
